@@ -159,6 +159,9 @@ class ArrInterp(ResultInterp):
         if name == "copy":
             out = AArr(a.side, True, a.content, a.selection)
             out.casts = list(a.casts)
+            for extra in ("cropped", "stage"):
+                if hasattr(a, extra):
+                    setattr(out, extra, getattr(a, extra))
             return out
         if name == "astype":
             dt = self._dtype(args[0]) if args else None
